@@ -174,4 +174,35 @@ func VerifH_C09_L2_crash() {
 			vz.Assert(nw.FinishTimestamp.IsZero(), "C09/L2/existing-task-never-recorded-as-lost")
 		}
 	}
+	// second pass, after every task that was seen finished has disappeared: an
+	// attempt that was observed to succeed is never retried (C08), whatever had
+	// been pencilled in for it before.
+	succeeded := false
+	for _, r := range j.refs {
+		if r.hasFinished && r.result == execution.TaskSucceeded {
+			succeeded = true
+		}
+		if r.task != nil && !r.task.Ref.FinishTimestamp.IsZero() && r.task.Ref.Status.Result == execution.TaskSucceeded {
+			succeeded = true
+		}
+	}
+	if err == nil && p.out != nil && succeeded {
+		var keep []*fakes.Task
+		for _, t := range p.te.Cache {
+			if t.Ref.FinishTimestamp.IsZero() {
+				keep = append(keep, t)
+			}
+		}
+		p.te.Cache = keep
+		mark := len(p.created)
+		// (two more passes: the pass that notices the disappearance, and the one after it)
+		for k := 0; k < 2; k++ {
+			p.j.rj = p.out
+			if err2 := p.run(); err2 != nil || p.out == nil {
+				break
+			}
+			vz.Cover("second-pass-after-success-vanished")
+			vz.Assert(len(p.created) == mark, "C08/L2/no-create-after-observed-success")
+		}
+	}
 }
